@@ -110,6 +110,12 @@ Definition read_batch (n_blocks : Z) (pos : Z) : rres (list Z * Z * Z) :=      (
   | ROutOfFuel => ROutOfFuel
   end.
 
+(* [lfix] selects the variant of the batch loop:
+     false — the loop of the pinned tree;
+     true  — proposed_fixes/C04_raw_reader_batch_loop.diff: leave the loop when a batch reads 0 blocks (end of data),
+             and decode one empty buffer when nothing at all was read, so that an empty array is returned *)
+Variable lfix : bool.
+
 (* the while loop of arrays(): one iteration submits one batch *)
 Fixpoint batch_loop (fuel : nat) (n_blocks per_batch : Z) (pos total : Z) (acc : list (list Z)) : rres (list (list Z)) :=
   if (total <? n_blocks) || ((n_blocks =? -1) && (pos <? data_end st)) then
@@ -118,7 +124,9 @@ Fixpoint batch_loop (fuel : nat) (n_blocks per_batch : Z) (pos total : Z) (acc :
     | S f =>
         let to_read := if n_blocks =? -1 then per_batch else Z.min (n_blocks - total) per_batch in
         match read_batch to_read pos with
-        | ROk (batch, n_read, pos') => batch_loop f n_blocks per_batch pos' (total + n_read) (acc ++ [batch])
+        | ROk (batch, n_read, pos') =>
+            if lfix && (n_read =? 0) then ROk acc        (* if n_read == 0: break *)
+            else batch_loop f n_blocks per_batch pos' (total + n_read) (acc ++ [batch])
         | RThrow e => RThrow e
         | ROutOfFuel => ROutOfFuel
         end
@@ -159,22 +167,33 @@ Definition ak_concatenate (rs : list result) : rres result :=
   | r :: tl => ROk (fold_left concat_result tl r)
   end.
 
-(* RawBinaryReader.arrays(n_blocks, n_block_per_batch, sub_detectors, max_workers) after __init__;
+(* self._reset_cursor(): whatever the file position was, it becomes data_start *)
+Definition reset_cursor (st : rstate) (cursor : Z) : Z := data_start st.
+
+(* RawBinaryReader.arrays(n_blocks, n_block_per_batch, sub_detectors, max_workers) on an open reader whose file position
+   is [cursor] (left there by __init__ or by an earlier arrays() call);
    [sched n] = completion order of the n decoding tasks (max_workers and the OS scheduler decide it) *)
-Definition arrays_gen (chk : bool) (fuel : nat) (fw : list Z) (n_blocks per_batch : Z) (names : list (option det))
-           (sched : nat -> list nat) : rres result :=
-  match preprocess fw with
-  | ROk st =>
-      match batch_loop fw st fuel n_blocks per_batch (data_start st) 0 [] with     (* _reset_cursor(); the loop *)
-      | ROk batches =>
-          match gather (run_pool (fun b => read_bes_raw_gen chk (fuel_for b) names b) batches (sched (length batches))) with
-          | ROk rs => ak_concatenate rs
-          | RThrow e => RThrow e
-          | ROutOfFuel => ROutOfFuel
-          end
+Definition arrays_from (chk lfix : bool) (fuel : nat) (fw : list Z) (st : rstate) (cursor : Z) (n_blocks per_batch : Z)
+           (names : list (option det)) (sched : nat -> list nat) : rres result :=
+  let cursor := reset_cursor st cursor in
+  match batch_loop fw st lfix fuel n_blocks per_batch cursor 0 [] with
+  | ROk batches0 =>
+      (* if not futures: submit read_bes_raw(np.empty(0)) *)
+      let batches := if lfix && match batches0 with [] => true | _ => false end then [[]] else batches0 in
+      match gather (run_pool (fun b => read_bes_raw_gen chk (fuel_for b) names b) batches (sched (length batches))) with
+      | ROk rs => ak_concatenate rs
       | RThrow e => RThrow e
       | ROutOfFuel => ROutOfFuel
       end
+  | RThrow e => RThrow e
+  | ROutOfFuel => ROutOfFuel
+  end.
+
+(* open_raw(path).arrays(...): __init__ runs _preprocess_file (which ends with _reset_cursor) *)
+Definition arrays_gen (chk lfix : bool) (fuel : nat) (fw : list Z) (n_blocks per_batch : Z) (names : list (option det))
+           (sched : nat -> list nat) : rres result :=
+  match preprocess fw with
+  | ROk st => arrays_from chk lfix fuel fw st (data_start st) n_blocks per_batch names sched
   | RThrow e => RThrow e
   | ROutOfFuel => ROutOfFuel
   end.
@@ -192,8 +211,8 @@ Fixpoint all_ok {A} (l : list (rres A)) : rres (list A) :=
   | RThrow e :: _ => RThrow e
   | ROutOfFuel :: _ => ROutOfFuel
   end.
-Definition concatenate_gen (chk : bool) (files : list (list Z)) (per_batch : Z) (names : list (option det)) : rres result :=
-  match all_ok (map (fun fw => arrays_gen chk (reader_fuel fw) fw (-1) per_batch names in_order) files) with
+Definition concatenate_gen (chk lfix : bool) (files : list (list Z)) (per_batch : Z) (names : list (option det)) : rres result :=
+  match all_ok (map (fun fw => arrays_gen chk lfix (reader_fuel fw) fw (-1) per_batch names in_order) files) with
   | ROk rs => ak_concatenate rs
   | RThrow e => RThrow e
   | ROutOfFuel => ROutOfFuel
